@@ -1,6 +1,48 @@
-import RucteModel
+import RucteModel.Emit
+import RucteModel.Exec
+import RucteProofs.Literals
+import RucteProps.C08
 
-/-! # C01 — placeholder: theorems are added as they are proved. -/
+/-!
+# C01 — literal template text is reproduced byte for byte (the literal part)
+
+`textLit ue t` is the literal `write_code` prints for a text node (after the repair: `b"…"` with
+`escape_ascii` for ASCII text, `"…".as_bytes()` with `{:?}` otherwise).
+-/
 namespace Ructe.C01
-theorem placeholder : True := trivial
+open Nom
+
+/-- ASCII text: the printed byte-string literal denotes exactly the text — every ASCII code point,
+including quotes, backslashes, CR, LF, NUL and every other control character -/
+theorem textLit_ascii (ue : Nat → Bool) (t : Bytes) (h : isAsciiB t = true) :
+    textLit ue t = [98, 34] ++ escapeAscii t ++ [34] ∧
+    decodeByteStrLit ([98, 34] ++ escapeAscii t ++ [34]) = some t := by
+  have e1 : str "b\"" = [98, 34] := by decide +kernel
+  have e2 : str "\"" = [34] := by decide +kernel
+  exact ⟨by simp [textLit, h, e1, e2], C08.byteString_roundtrip t⟩
+
+/-- non-ASCII text (valid UTF-8, as the parser guarantees): `"…".as_bytes()` denotes exactly the text -/
+theorem textLit_nonascii (ue : Nat → Bool) (t : Bytes) (h : isAsciiB t = false) (hv : validUtf8 t = true) :
+    textLit ue t = strDebug ue t ++ str ".as_bytes()" ∧ decodeStrLit (strDebug ue t) = some t := by
+  exact ⟨by simp [textLit, h], C08.strDebug_roundtrip ue t hv⟩
+
+/-- the pinned emission `b{text:?}` of ASCII text with a control character does not lex as a byte
+string: `b"X\u{8}"` (finding #1, machine-checked) -/
+theorem emitTextPinned_counterexample :
+    decodeByteStrLit ([98] ++ strDebug (fun _ => false) [88, 8]) = none ∧
+    decodeByteStrLit ([98, 34] ++ escapeAscii [88, 8] ++ [34]) = some [88, 8] := by
+  decide +kernel
+
+/-- the three escapes and comments: what the parser's text nodes for `@@`, `@{`, `@}` lower to -/
+theorem lower_text (t : Bytes) : lower (.text t) = [.writeAll t] := by
+  simp [lower]
+
+theorem lower_comment : lower .comment = [] := by
+  simp [lower]
+
+/-- a text node renders as itself, a comment as nothing (specification semantics, every `Sem`) -/
+theorem render_text (sem : Sem) (prog : Prog) (n : Nat) (t : Bytes) (env : Env) :
+    renderS sem prog (n + 1) (.writeAll t) env = some t := by
+  simp [renderS]
+
 end Ructe.C01
